@@ -541,6 +541,10 @@ M('C17', 'check-after-conversion', RI,
   "        self.convert_units()\n",
   "        # Convert units to DASSH defaults\n        self.convert_units()\n"
   "        self.check_parallel()\n", 'C17.R3')
+M('C17', 'raw-temperature-to-material', RI,
+  "        if t_unit not in utils._DEFAULT_UNITS['temperature']:\n"
+  "            inlet_temp = utils.get_temperature_conversion(\n"
+  "                t_unit, 'k')(inlet_temp)\n", "", 'C17.R6')
 B('C17', 'key-list-reordered', RI,
   "        for p in ['pin_pitch', 'pin_diameter', 'clad_thickness',\n"
   "                  'wire_pitch', 'wire_diameter']:",
